@@ -133,6 +133,15 @@ CHECKS["C15"] = dict(
     note="trusted: harness feeding the first output back verbatim, TLC; value lists are finite; date-times and the empty print of a zero duration are outside the statement",
     ref="7 C15")
 
+CHECKS["C16"] = dict(
+    technique="TLA+ spec in which spacing, comments and letter case are rendering attributes (invariance by construction); TLC-enumerated cases of nine generators replayed in rewritten spellings against the expectation of the unmodified line; rewritten random cases validated by TLC (Trace.tla)",
+    text="The specification is thin here: no operator of Meaning.tla can observe blanks, comments or letter case, so the property is a pure conformance obligation. A seeded sample of the "
+         "cases TLC enumerates for arithmetic, percentages, money, dates, durations, times, units, radix and timestamps is rewritten with widened gaps, trailing comments from a pool with "
+         "digits / operators / keywords / month and unit names, and UPPER / Title case of currency codes, month names, zone names and connectives, and must give the value TLC computed for "
+         "the unmodified line; blank-only and comment-only lines must be empty; randomly rewritten cases are executed and validated by TLC.",
+    note="trusted: the rewriting functions of lib/props/c16.py (only existing gaps are widened, am / pm stays with its time, unit names keep their case), renderer, projection, TLC",
+    ref="7 C16")
+
 NOT_YET = {
 }
 
